@@ -147,7 +147,7 @@ class Tools:
             kv = dict(x.split('=') for x in ms.split())
             r['ms_ret'], r['ms_args'] = kv['ret'], kv['args'].split(';')
             r['wf'] = kv.get('wf')
-            r['straddle'], r['gccarg'], r['mcg'] = kv.get('straddle'), kv.get('gccarg'), kv.get('mcg')
+            r['straddle'], r['head'] = kv.get('straddle'), kv.get('head')
             res.append(r)
         return res
 
@@ -262,20 +262,6 @@ def kverdict(t, r):
         return 'gcc-union-unnamed-bf'   # gcc deviates from the psABI text; not compared
     if has_underaligned_fullwidth_unnamed_bf(t):
         return 'gcc-fullwidth-unnamed-bf'   # likewise
-    if r.get('straddle') == '1':
-        # an unnamed bit-field touching two eightbytes (coq/C08/SpanClassify.v): gcc must follow sysv_classify_g;
-        # c2m either equals gcc (tree with fixes/C08-9: its Coq model, which is the audited code, is not compared
-        # here) or - TEMPORARY exact filter until that patch is in /repo - classifies by the first eightbyte only,
-        # exactly as its model says (theorem classify_eq_gcc_refuted)
-        if r['gcc_arg'].upper() != r['gccarg'].upper():
-            return 'model-sysv'
-        c2m_arg = first(blk_letters(r['c2m_args'][0]))
-        if c2m_arg == r['gcc_arg'].upper() and ret_same(r['gcc_ret'], r['c2m_ret']):
-            # the tree has the fix: its model is classify_arg_g (theorem classify_fixed_eq_gcc_total)
-            return 'ok-straddle-fixed' if c2m_arg == r['mcg'] else 'model-c2m'
-        if c2m_arg == first(r['ms_args'][0]).upper() and r['c2m_args'] == r['mc_args'] and r['c2m_ret'] == r['mc_ret']:
-            return 'known-straddling-unnamed-bf'
-        return 'abi-mismatch'
     if first(blk_letters(r['c2m_args'][0])) != r['gcc_arg'].upper() or not ret_same(r['gcc_ret'], r['c2m_ret']):
         return 'abi-mismatch'
     if r['c2m_ret'] != r['mc_ret'] or r['c2m_args'] != r['mc_args']:
@@ -468,9 +454,12 @@ def classify_part(chk, tools, decls, label):
         for f in sorted(G.features(t) | G.shape_features(t)):
             chk.dist('classified_decl_features', f)
         chk.dist('mixed_signature', r.get('mix', '?'))
+        if r.get('straddle') == '1':
+            chk.dist('bitfield_touching_two_eightbytes', 'old first-eightbyte rule would differ' if r.get('head') != first(r['ms_args'][0]).upper().replace('N', 'I')
+                     else 'old rule agrees')
         chk.dist('arg_class(gcc)', (r['gcc_arg'] or '?').upper())
         chk.dist('ret_class(gcc)', (r['gcc_ret'] or '?').upper())
-        if v not in ('ok', 'padding-eightbyte', 'gcc-union-unnamed-bf', 'gcc-fullwidth-unnamed-bf', 'ok-straddle-fixed', 'known-straddling-unnamed-bf'):
+        if v not in ('ok', 'padding-eightbyte', 'gcc-union-unnamed-bf', 'gcc-fullwidth-unnamed-bf'):
             bad.setdefault(v, []).append((t, r))
     chk.log('%s: %d declarations, verdicts %s' % (label, len(decls), {k: len(v) for k, v in bad.items()} or 'all ok'))
     seen = set()
@@ -555,8 +544,6 @@ def passing_part(chk, tools, decls, label, modes=('-ei', '-eg')):
             chk.dist('passing_excluded', 'gcc-union-unnamed-bf')
         elif has_underaligned_fullwidth_unnamed_bf(t):
             chk.dist('passing_excluded', 'gcc-fullwidth-unnamed-bf')
-        elif m.get('straddle') == '1' and not STRADDLE_FIXED:
-            chk.dist('passing_excluded', 'straddling-unnamed-bf (fixes/C08-9.patch not applied)')
         else:
             use.append(t)
     # a 16-byte aligned aggregate passed in memory needs an even number of stack words before it (known
@@ -649,27 +636,6 @@ def gnuext_part(chk, tools, n):
                     'c2m and gcc lay out a declaration with zero-size members (GNU C) differently: %s  c2m[%s] gcc[%s]' % (txt, rr[0]['c2m'], rr[0]['gcc']))
 
 
-# an unnamed bit-field touching two eightbytes: gcc classifies both INTEGER, the audited c2m only the first
-# (theorem classify_eq_gcc_refuted, fixes/C08-9.patch).  The witness is classified on every run; while it shows
-# exactly that deviation, declarations with such a bit-field are kept out of the run-time passing streams.
-STRADDLE_WITNESS = 's{ n bint ; n s{ n bchar ; g40 blong } ; n bfloat }'
-STRADDLE_FIXED = []
-
-
-def straddle_witness(chk, tools):
-    t = G.parse_text(STRADDLE_WITNESS)
-    r = tools.classify([t])[0]
-    v = kverdict(t, r)
-    chk.count('K ' + STRADDLE_WITNESS)
-    chk.dist('straddling_unnamed_bitfield_witness', v)
-    if v == 'ok-straddle-fixed':
-        STRADDLE_FIXED.append(True)
-    elif v != 'known-straddling-unnamed-bf':
-        chk.finding('classify:' + STRADDLE_WITNESS, dict(kind='classify', decl=STRADDLE_WITNESS, **r),
-                    'c2m and gcc pass %s differently and not in the way the Coq model of the audited code predicts: %s' % (STRADDLE_WITNESS, v))
-    chk.log('straddling unnamed bit-field witness: %s' % v)
-
-
 def libc_part(chk, tools):
     """harness/c08_libc.c under c2m (-ei, -eg) and gcc: identical output lines"""
     src = os.path.join(vlib.VERIF, 'harness', 'c08_libc.c')
@@ -738,7 +704,6 @@ def run(chk):
             for k, v in layout_part(chk, tools, decls, 'layout batch %d' % b).items():
                 bad.setdefault(k, []).extend(v)
         padding_witness(chk, tools)
-        straddle_witness(chk, tools)
         align16_witness(chk, tools)
         pcorpus = load_corpus('c08_pass.txt')
         if pcorpus:
@@ -814,7 +779,7 @@ def replay(chk, path):
                 print('%-8s: %s' % (k, r[k]))
             v = kverdict(t, r)
             print('verdict:', v)
-            return 0 if v in ('ok', 'ok-straddle-fixed') else 1
+            return 0 if v == 'ok' else 1
         if rp.get('kind') == 'gnuext':
             t = G.parse_text(rp['decl'])
             res, info = tools.layout([t])
